@@ -173,8 +173,16 @@ func writeUsingMaterial(mat *modeling.Material, out *txt.Writer) {
 	}
 }
 
-func writeFaceVerts(tris *iter.ArrayIterator[int], out *txt.Writer, start, end, offset int) {
-	shift := 1 + offset
+// faceOffsets tracks how many v, vt and vn entries were written by previous
+// meshes, as each list is indexed independently in the OBJ format
+type faceOffsets struct {
+	position int
+	uv       int
+	normal   int
+}
+
+func writeFaceVerts(tris *iter.ArrayIterator[int], out *txt.Writer, start, end int, offset faceOffsets) {
+	shift := 1 + offset.position
 	for triIndex := start; triIndex < end; triIndex += 3 {
 		out.StartEntry()
 		out.String("f ")
@@ -188,8 +196,9 @@ func writeFaceVerts(tris *iter.ArrayIterator[int], out *txt.Writer, start, end, 
 	}
 }
 
-func writeFaceVertsAndUvs(tris *iter.ArrayIterator[int], out *txt.Writer, start, end, offset int) {
-	shift := 1 + offset
+func writeFaceVertsAndUvs(tris *iter.ArrayIterator[int], out *txt.Writer, start, end int, offset faceOffsets) {
+	shift := 1 + offset.position
+	uvShift := offset.uv - offset.position
 	for triIndex := start; triIndex < end; triIndex += 3 {
 		p1 := tris.At(triIndex) + shift
 		p2 := tris.At(triIndex+1) + shift
@@ -200,24 +209,25 @@ func writeFaceVertsAndUvs(tris *iter.ArrayIterator[int], out *txt.Writer, start,
 
 		out.Int(p1)
 		out.String("/")
-		out.Int(p1)
+		out.Int(p1 + uvShift)
 		out.Space()
 
 		out.Int(p2)
 		out.String("/")
-		out.Int(p2)
+		out.Int(p2 + uvShift)
 		out.Space()
 
 		out.Int(p3)
 		out.String("/")
-		out.Int(p3)
+		out.Int(p3 + uvShift)
 		out.NewLine()
 		out.FinishEntry()
 	}
 }
 
-func writeFaceVertsAndNormals(tris *iter.ArrayIterator[int], out *txt.Writer, start, end, offset int) {
-	shift := 1 + offset
+func writeFaceVertsAndNormals(tris *iter.ArrayIterator[int], out *txt.Writer, start, end int, offset faceOffsets) {
+	shift := 1 + offset.position
+	normalShift := offset.normal - offset.position
 	for triIndex := start; triIndex < end; triIndex += 3 {
 		p1 := tris.At(triIndex) + shift
 		p2 := tris.At(triIndex+1) + shift
@@ -228,24 +238,26 @@ func writeFaceVertsAndNormals(tris *iter.ArrayIterator[int], out *txt.Writer, st
 
 		out.Int(p1)
 		out.String("//")
-		out.Int(p1)
+		out.Int(p1 + normalShift)
 		out.Space()
 
 		out.Int(p2)
 		out.String("//")
-		out.Int(p2)
+		out.Int(p2 + normalShift)
 		out.Space()
 
 		out.Int(p3)
 		out.String("//")
-		out.Int(p3)
+		out.Int(p3 + normalShift)
 		out.NewLine()
 		out.FinishEntry()
 	}
 }
 
-func writeFaceVertAndUvsAndNormals(tris *iter.ArrayIterator[int], out *txt.Writer, start, end, offset int) {
-	shift := 1 + offset
+func writeFaceVertAndUvsAndNormals(tris *iter.ArrayIterator[int], out *txt.Writer, start, end int, offset faceOffsets) {
+	shift := 1 + offset.position
+	uvShift := offset.uv - offset.position
+	normalShift := offset.normal - offset.position
 	for triIndex := start; triIndex < end; triIndex += 3 {
 		p1 := tris.At(triIndex) + shift
 		p2 := tris.At(triIndex+1) + shift
@@ -256,23 +268,23 @@ func writeFaceVertAndUvsAndNormals(tris *iter.ArrayIterator[int], out *txt.Write
 
 		out.Int(p1)
 		out.String("/")
-		out.Int(p1)
+		out.Int(p1 + uvShift)
 		out.String("/")
-		out.Int(p1)
+		out.Int(p1 + normalShift)
 		out.Space()
 
 		out.Int(p2)
 		out.String("/")
-		out.Int(p2)
+		out.Int(p2 + uvShift)
 		out.String("/")
-		out.Int(p2)
+		out.Int(p2 + normalShift)
 		out.Space()
 
 		out.Int(p3)
 		out.String("/")
-		out.Int(p3)
+		out.Int(p3 + uvShift)
 		out.String("/")
-		out.Int(p3)
+		out.Int(p3 + normalShift)
 		out.NewLine()
 		out.FinishEntry()
 	}
@@ -358,9 +370,9 @@ func WriteMeshes(meshes []ObjMesh, materialFile string, out io.Writer) error {
 		}
 	}
 
-	var faceWriter func(tris *iter.ArrayIterator[int], out *txt.Writer, start, end, offset int)
+	var faceWriter func(tris *iter.ArrayIterator[int], out *txt.Writer, start, end int, offset faceOffsets)
 
-	indexOffset := 0
+	indexOffset := faceOffsets{}
 	for _, objMesh := range meshes {
 		if len(meshes) > 1 || objMesh.Name != "" {
 			fmt.Fprintf(out, "g %s\n", objMesh.Name)
@@ -401,7 +413,15 @@ func WriteMeshes(meshes []ObjMesh, materialFile string, out io.Writer) error {
 				offset = nextOffset
 			}
 		}
-		indexOffset += m.AttributeLength()
+		if m.HasFloat3Attribute(modeling.PositionAttribute) {
+			indexOffset.position += m.Float3Attribute(modeling.PositionAttribute).Len()
+		}
+		if m.HasFloat2Attribute(modeling.TexCoordAttribute) {
+			indexOffset.uv += m.Float2Attribute(modeling.TexCoordAttribute).Len()
+		}
+		if m.HasFloat3Attribute(modeling.NormalAttribute) {
+			indexOffset.normal += m.Float3Attribute(modeling.NormalAttribute).Len()
+		}
 	}
 
 	return nil
